@@ -935,7 +935,12 @@ def r_config_plumbing(repo, rep, R):
         rep.check(ok, R, w2, 'parsing.run:kwargs:' + f, 'option %r is bound to the like-named parameter of depccg.parsing.run' % f,
                   'option %r is bound to %s' % (f, show(v) if v is not None else 'nothing'))
     v = d.get('num_tags')
-    rep.check(v is not None and v[0] == 'sub' and v[2] == C(1) and v[1][0] == 'attr' and v[1][2] == 'shape', R, w2, 'parsing.run:kwargs:num_tags',
+    ok_nt = v is not None and v[0] == 'sub' and v[2] == C(1) and v[1][0] == 'attr' and v[1][2] == 'shape'
+    if not ok_nt and v is not None and v[0] == 'call' and v[1] == N('len') and len(v[2]) == 1 and v[2][0][0] == 'name' and v[2][0][1] in pparams:
+        # ... or the length of the category list, which the validation step has just compared with that width
+        ok_nt = any(isinstance(c_, ast.Call) and isinstance(c_.func, ast.Name) and c_.func.id == '_type_check'
+                    and any(isinstance(a_, ast.Name) and a_.id == v[2][0][1] for a_ in c_.args) for c_ in ast.walk(prun))
+    rep.check(ok_nt, R, w2, 'parsing.run:kwargs:num_tags',
               'num_tags is the width of the tag-score matrix', 'num_tags is %s' % (show(v) if v is not None else 'missing'))
     # __main__: CLI flags -> parameters
     mm = repo.module('depccg/__main__.py')
@@ -945,6 +950,22 @@ def r_config_plumbing(repo, rep, R):
         if isinstance(n, ast.Assign) and isinstance(n.value, ast.Call) and src(n.value.func) == 'dict' and any(
                 isinstance(t, ast.Name) and t.id == 'kwargs' for t in n.targets):
             kd = {kw.arg: kw.value for kw in n.value.keywords}
+    if kd is None:
+        # ... or built by a helper that is given the parsed arguments:  kwargs = options_of(args)
+        for n in ast.walk(main):
+            if isinstance(n, ast.Assign) and isinstance(n.value, ast.Call) and isinstance(n.value.func, ast.Name) and len(n.value.args) == 1 \
+                    and isinstance(n.value.args[0], ast.Name) and any(isinstance(t, ast.Name) and t.id == 'kwargs' for t in n.targets):
+                h = mm.get(n.value.func.id, required=False)
+                if isinstance(h, ast.FunctionDef) and len(h.args.args) == 1:
+                    rets = [r for r in ast.walk(h) if isinstance(r, ast.Return) and r.value is not None]
+                    if len(rets) == 1 and isinstance(rets[0].value, ast.Call) and src(rets[0].value.func) == 'dict' and not rets[0].value.args:
+                        hp, an = h.args.args[0].arg, n.value.args[0].id
+
+                        class _Ren(ast.NodeTransformer):
+                            def visit_Name(self_, x):
+                                return ast.copy_location(ast.Name(id=an, ctx=x.ctx), x) if x.id == hp else x
+                        import copy as _copy
+                        kd = {kw.arg: _Ren().visit(_copy.deepcopy(kw.value)) for kw in rets[0].value.keywords}
     if kd is None:
         raise AnalysisError('depccg/__main__.py: kwargs = dict(...) not found')
     w3 = 'depccg/__main__.py:%s main' % main.lineno
